@@ -337,6 +337,15 @@ def base_object(draw, kind):
         return ("P", draw(gen.lattice_point()))
     if kind == "V":
         return ("V", draw(gen.lattice_point()))
+    if kind in ("L", "PL") and draw(st.integers(0, 5)) == 0:
+        # through the origin and parallel to / containing a coordinate axis: offset 0 and a zero component, so nothing
+        # but the remaining two components can fix a canonical orientation
+        i = draw(st.integers(0, 2))
+        w = [F(draw(st.sampled_from((1, -1, 2, -2, 3, -3)))), F(draw(st.sampled_from((1, -1, 2, 3, -3))))]
+        w.insert(i, F(0))
+        if kind == "PL":
+            return ("PL", (F(0), F(0), F(0)), tuple(w))
+        return ("L", (F(0), F(0), F(0)), tuple(w))
     if kind in ("L", "H", "S", "PL"):
         return draw(gen.free_flat(kind))
     if kind == "G":
